@@ -229,17 +229,28 @@ theorem parallel_uses_feed (rxs : List Rxn) (n : Vec) (hfit : Fits rxs n) (i : N
   unfold reactParallel extents
   rw [getD_applyExtents i _ rxs n hfit, zipWith_map_self]
 
-/-- A `SeriesReaction` applies each reaction to what the previous ones left. -/
-theorem series_uses_running (rx : Rxn) (rxs : List Rxn) (n : Vec) :
-    reactSeries (rx :: rxs) n = reactSeries rxs (rx.react n) := rfl
+/-- A `SeriesReaction` applies each reaction to what the previous ones left: the extent of the second
+of two reactions in series is `X₂` times the flow of its reactant *after* the first reaction,
+`n[r₂] + e₁·ν₁[r₂]` — not the feed's `n[r₂]` as in `parallel_uses_feed`.  (The unfolding
+`reactSeries (rx :: rxs) n = reactSeries rxs (rx.react n)` is definitional: Lemmas/Reaction.lean.) -/
+theorem series_second_extent (r1 r2 : Rxn) (n : Vec) (h1 : r1.nu.length = n.length)
+    (h2 : r2.nu.length = n.length) (i : Nat) :
+    (reactSeries [r1, r2] n).getD i 0
+      = n.getD i 0 + (n.getD r1.r 0 * r1.X) * r1.nu.getD i 0
+        + ((n.getD r2.r 0 + (n.getD r1.r 0 * r1.X) * r1.nu.getD r2.r 0) * r2.X) * r2.nu.getD i 0 := by
+  show (r2.react (r1.react n)).getD i 0 = _
+  rw [getD_react r2 _ i (by rw [length_react r1 n h1]; exact h2), getD_react r1 n i h1, getD_react r1 n r2.r h1]
 
 theorem series_append (rxs₁ rxs₂ : List Rxn) (n : Vec) :
     reactSeries (rxs₁ ++ rxs₂) n = reactSeries rxs₂ (reactSeries rxs₁ n) := by
   simp [reactSeries, List.foldl_append]
 
-/-- A `ReactionSystem` applies its members in sequence, each to the running composition. -/
-theorem system_uses_running (m : Member) (ms : List Member) (n : Vec) :
-    reactSystem (m :: ms) n = reactSystem ms (m.react n) := rfl
+/-- A `ReactionSystem` of two members: the second member sees what the first one left (for two plain
+reactions this is the series formula; the general unfolding is definitional, Lemmas/Reaction.lean). -/
+theorem system_second_member (m1 m2 : Member) (n : Vec) :
+    reactSystem [m1, m2] n = m2.react (m1.react n) ∧
+      (∀ r1 r2 : Rxn, reactSystem [.single r1, .single r2] n = reactSeries [r1, r2] n) :=
+  ⟨rfl, fun _ _ => rfl⟩
 
 /-- the two differ: A → B twice with X = 1/2 on (A, B) = (4, 0) -/
 example : reactParallel [⟨[-1, 1], 0, 1/2⟩, ⟨[-1, 1], 0, 1/2⟩] [4, 0] = [0, 4] ∧
@@ -1032,5 +1043,137 @@ theorem return_implies_one_basis (o : RObj) (tol : Rat) (flat out : Vec) (h : o.
 /-- non-vacuity: a by-mol system one of whose two members is by wt now -/
 example : (RObj.mk (.system []) .mol [] [] [] [.mol, .wt]).core feasTol [] = .error .basisMix := by
   decide +kernel
+
+/-! ## consumption at the level of the whole call -/
+
+lemma callOwn_mol_flat (o : RObj) (tol : Rat) (rows rows' : List Vec) (hb : o.basis = .mol)
+    (hrect : ∀ row ∈ rows, row.length = o.pkg.length) (h : o.callOwn tol rows = .ok rows') :
+    o.core tol rows.flatten = .ok rows'.flatten := by
+  have e1 : o.callOwn tol rows = (o.core tol rows.flatten).map (chunk o.pkg.length rows.length) := by
+    unfold RObj.callOwn; rw [hb]
+  rw [e1] at h
+  cases hc : o.core tol rows.flatten with
+  | error e => rw [hc] at h; cases h
+  | ok out =>
+    rw [hc] at h; injection h with h; subst h
+    rw [chunk_flatten o.pkg.length rows.length out
+      (by rw [length_core o tol _ out hc, length_flatten_rect o.pkg.length rows hrect])]
+
+lemma callOwn_wt_flat (o : RObj) (tol : Rat) (rows rows' : List Vec) (hb : o.basis = .wt)
+    (hrect : ∀ row ∈ rows, row.length = o.pkg.length) (hmwlen : o.mw.length = o.pkg.length)
+    (h : o.callOwn tol rows = .ok rows') :
+    ∃ out, o.core tol (hmul rows.flatten (tile rows.length o.mw)) = .ok out ∧
+      rows'.flatten = hdiv out (tile rows.length o.mw) := by
+  have e2 : o.callOwn tol rows
+      = (o.core tol (hmul rows.flatten (tile rows.length o.mw))).map
+          (fun out => chunk o.pkg.length rows.length (hdiv out (tile rows.length o.mw))) := by
+    unfold RObj.callOwn; rw [hb]
+  rw [e2] at h
+  have hflat := length_flatten_rect o.pkg.length rows hrect
+  have hmwT : (tile rows.length o.mw).length = rows.length * o.pkg.length := by rw [length_tile, hmwlen]
+  cases hc : o.core tol (hmul rows.flatten (tile rows.length o.mw)) with
+  | error e => rw [hc] at h; cases h
+  | ok out =>
+    rw [hc] at h; injection h with h; subst h
+    refine ⟨out, rfl, ?_⟩
+    have hout : out.length = rows.length * o.pkg.length := by
+      rw [length_core o tol _ out hc, length_hmul _ _ (by rw [hflat, hmwT]), hflat]
+    rw [chunk_flatten o.pkg.length rows.length _ (by rw [length_hdiv _ _ (by rw [hout, hmwT]), hout])]
+
+/-- The whole call (`__call__` on a stream of the object's own package, molar basis) of a single
+reaction built from the coefficients `raw`: when the conversion is feasible (the clamp has nothing
+to do) the reactant's flow — flattened over the phases — goes to `feed · (1 − X)` and every
+other entry changes by `extent · ν_i / (−ν_r)`. -/
+theorem call_consumes_X (raw : Vec) (r : Nat) (X : Rat) (rx : Rxn) (o : RObj) (tol : Rat)
+    (rows rows' : List Vec) (hmk : Rxn.make raw r X = .ok rx) (hk : o.kind = .member (.single rx))
+    (hb : o.basis = .mol) (hrect : ∀ row ∈ rows, row.length = o.pkg.length)
+    (hcall : o.callOwn tol rows = .ok rows') (hnn : ∀ x ∈ rx.react rows.flatten, 0 ≤ x) :
+    rows'.flatten.getD r 0 = rows.flatten.getD r 0 * (1 - X) ∧
+      ∀ i, rows'.flatten.getD i 0 - rows.flatten.getD i 0
+        = (rows.flatten.getD r 0 * X) * (raw.getD i 0 / (-(raw.getD r 0))) := by
+  have hcore := callOwn_mol_flat o tol rows rows' hb hrect hcall
+  obtain ⟨hfit, hf⟩ := core_ok o tol _ _ hcore
+  have hreact : o.kind.react rows.flatten = rx.react rows.flatten := by rw [hk]; rfl
+  rw [hreact] at hf
+  obtain ⟨_, hout⟩ := (feasibility_ok_iff _ _ _).mp hf
+  rw [clamp_of_nonneg _ hnn] at hout
+  have hl : raw.length = rows.flatten.length := by
+    have := hfit rx (by rw [hk]; simp [Kind.rxns, Member.rxns])
+    rw [← rescale_length raw r rx.nu (make_ok raw r X rx hmk).1]; exact this
+  rw [hout]
+  exact ⟨consumes_X raw r X rx _ hmk hl, fun i => stoichiometric_change raw r X rx _ hmk hl i⟩
+
+lemma getD_hdiv : ∀ (a b : Vec) (i : Nat), (hdiv a b).getD i 0 = a.getD i 0 / b.getD i 0 := by
+  intro a
+  induction a with
+  | nil => intro b i; simp
+  | cons x xs ih =>
+    intro b i
+    cases b with
+    | nil => simp
+    | cons y ys => cases i with
+      | zero => simp
+      | succ i => simpa using ih ys i
+
+/-- … and on the weight basis (the stream is routed through its mass flows): the mass flows after the
+call are the weight-basis reaction applied to the mass flows before — so every mass changes by
+`extent · ν_i / (−ν_r)` with the weight coefficients — and the reactant's *molar* flow goes to
+`feed · (1 − X)` all the same. -/
+theorem call_consumes_X_wt (raw : Vec) (r : Nat) (X : Rat) (rx : Rxn) (o : RObj) (tol : Rat)
+    (rows rows' : List Vec) (hmk : Rxn.make raw r X = .ok rx) (hk : o.kind = .member (.single rx))
+    (hb : o.basis = .wt) (hrect : ∀ row ∈ rows, row.length = o.pkg.length)
+    (hmwlen : o.mw.length = o.pkg.length) (hpos : ∀ x ∈ o.mw, 0 < x)
+    (hcall : o.callOwn tol rows = .ok rows')
+    (hnn : ∀ x ∈ rx.react (hmul rows.flatten (tile rows.length o.mw)), 0 ≤ x) :
+    hmul rows'.flatten (tile rows.length o.mw) = rx.react (hmul rows.flatten (tile rows.length o.mw)) ∧
+      rows'.flatten.getD r 0 = rows.flatten.getD r 0 * (1 - X) := by
+  obtain ⟨out, hcore, hflat'⟩ := callOwn_wt_flat o tol rows rows' hb hrect hmwlen hcall
+  obtain ⟨hfit, hf⟩ := core_ok o tol _ _ hcore
+  have hreact : ∀ v, o.kind.react v = rx.react v := by intro v; rw [hk]; rfl
+  rw [hreact] at hf
+  obtain ⟨_, hout⟩ := (feasibility_ok_iff _ _ _).mp hf
+  rw [clamp_of_nonneg _ hnn] at hout
+  have hfl := length_flatten_rect o.pkg.length rows hrect
+  have hmwT : (tile rows.length o.mw).length = rows.length * o.pkg.length := by rw [length_tile, hmwlen]
+  have hml : (hmul rows.flatten (tile rows.length o.mw)).length = rows.length * o.pkg.length := by
+    rw [length_hmul _ _ (by rw [hfl, hmwT]), hfl]
+  have hnul : rx.nu.length = (hmul rows.flatten (tile rows.length o.mw)).length :=
+    hfit rx (by rw [hk]; simp [Kind.rxns, Member.rxns])
+  have hl : raw.length = (hmul rows.flatten (tile rows.length o.mw)).length := by
+    rw [← rescale_length raw r rx.nu (make_ok raw r X rx hmk).1]; exact hnul
+  have hposT : ∀ x ∈ tile rows.length o.mw, 0 < x := fun x hx => hpos x (mem_tile _ _ x hx)
+  have hrl : (rx.react (hmul rows.flatten (tile rows.length o.mw))).length = (tile rows.length o.mw).length := by
+    rw [length_react rx _ hnul, hml, hmwT]
+  constructor
+  · -- (out ⊘ MW) ⊙ MW = out
+    rw [hflat', hout]
+    have hcancel : ∀ (v w : Vec), v.length = w.length → (∀ x ∈ w, x ≠ 0) → hmul (hdiv v w) w = v := by
+      intro v
+      induction v with
+      | nil => intro w _ _; simp
+      | cons x xs ih =>
+        intro w hlen hz
+        cases w with
+        | nil => simp at hlen
+        | cons y ys =>
+          simp only [List.length_cons, Nat.add_right_cancel_iff] at hlen
+          have hy : y ≠ 0 := hz y (by simp)
+          simp only [hdiv_cons, hmul_cons, ih ys hlen (fun t ht => hz t (by simp [ht]))]
+          congr 1; field_simp
+    exact hcancel _ _ hrl (fun x hx => (hposT x hx).ne')
+  · rw [hflat', hout, getD_hdiv, consumes_X raw r X rx _ hmk hl, getD_hmul]
+    have hr0 : raw.getD r 0 ≠ 0 := ((rescale_ok_iff raw r rx.nu).mp (make_ok raw r X rx hmk).1).1
+    have hrlt : r < (tile rows.length o.mw).length := by
+      rw [hmwT, ← hml, ← hl]; exact getD_lt_of_ne_zero raw r hr0
+    have hmr : (tile rows.length o.mw).getD r 0 ≠ 0 := (hposT _ (getD_mem _ r hrlt)).ne'
+    field_simp
+
+/-- non-vacuity of the call-level statements: 2 H2 + O2 → 2 H2O (reactant H2, X = 1/2) on the stream
+(H2O, H2, O2) = (0, 4, 3), molar basis, and its weight-basis version on the same stream -/
+example : (RObj.mk (.member (.single ⟨[1, -1, -1/2], 1, 1/2⟩)) .mol [] [0, 1, 2] [18, 2, 32] []).callOwn
+      feasTol [[0, 4, 3]] = .ok [[2, 2, 2]] ∧
+    (RObj.mk (.member (.single ⟨[9, -1, -8], 1, 1/2⟩)) .wt [] [0, 1, 2] [18, 2, 32] []).callOwn
+      feasTol [[0, 4, 3]] = .ok [[2, 2, 2]] := by
+  constructor <;> decide +kernel
 
 end ThermoVerif.Props.C05
